@@ -29,13 +29,21 @@ def first_message(shape):
         return msg
     if shape == 'mti_only':
         return {'MTI': '1644'}
+    if shape == 'all_bytes':
+        # binary chip data that contains every byte value 0..255 (line feed, NUL, 0x40 ... among them)
+        tlvs = [(b'\x9f\x26', bytes(range(0, 128))), (b'\x82', bytes(range(128, 256)))]
+        return {'MTI': '1240', 'DE3': '000000', 'DE55': iso_ref.icc_build(tlvs), 'DE72': 'L' * 500}
     bit = int(shape)
     kind, param = isogen.default_variant(cfg[str(bit)])
     return {'MTI': '1240', 'DE%d' % bit: isogen.build_value(cfg[str(bit)], kind, param, 'ascii', 0, bit)}
 
 
 def filler(i):
-    return {'MTI': '1240', 'DE2': '5%015d' % i, 'DE72': 'F' * 900, 'DE127': 'G' * (50 + i % 40)}
+    m = {'MTI': '1240', 'DE2': '5%015d' % i, 'DE72': 'F' * 900, 'DE127': 'G' * (50 + i % 40)}
+    if i % 2:
+        m['DE72'] = 'F' * 600
+        m['DE55'] = iso_ref.icc_build([(b'\x9f\x26', bytes(range(0, 128))), (b'\x82', bytes(range(128, 256)))])
+    return m
 
 
 def writer_file(shape, enc, blocked, blocks):
@@ -259,7 +267,7 @@ def replay_into(case, acc):
 
 def enumerate_cases(tier, seed):
     cases = []
-    shapes = ['full', 'mti_only'] + [str(b) for b in isogen.bits_of('PKG')]
+    shapes = ['full', 'mti_only', 'all_bytes'] + [str(b) for b in isogen.bits_of('PKG')]
     maxblocks = 10 if tier == 'quick' else 14
     for shape in shapes:
         for enc in ASCII_FAMILY + EBCDIC_FAMILY:
